@@ -15,7 +15,7 @@ import (
 )
 
 var c02Forced = []string{"bin.plus", "bin.minus", "bin.mult", "bin.div", "bin.intdiv", "bin.mod", "bin.bitand", "bin.bitor", "bin.bitxor", "bin.shl", "bin.shr",
-	"un.minus", "un.tilde", "un.bang", "case.else", "case.noelse", "null.operand", "item.star", "ref.path", "ref.path.bare", "ref.missing", "from.alias", "where", "opt.pg", "naming.alias-unqualified", "naming.table-qualified"}
+	"un.minus", "un.tilde", "un.bang", "case.else", "case.noelse", "null.operand", "item.star", "ref.path", "ref.path.bare", "ref.missing", "from.alias", "where", "opt.pg", "naming.alias-unqualified", "naming.table-qualified", "row.envelope"}
 
 func init() {
 	fw.Register(&fw.Prop{
@@ -122,6 +122,44 @@ func c02Proj(c *fw.Case) {
 	if force == "where" || c.Chance(0.4) {
 		where = pg.Gen()
 	}
+	envelope := false
+	if force == "row.envelope" || (force == "" && alias == "" && qualifier == "" && c.Chance(0.05)) {
+		// envelope rows: a row is {"env": {...}} and nothing else (or carries
+		// one more key); a column of the inner object named without its path
+		// is a missing key
+		envelope = true
+		where = nil
+		for i, row := range t.Rows {
+			outer := map[string]any{"env": row}
+			if c.Chance(0.4) {
+				outer["rid"] = row["rid"]
+			}
+			t.Rows[i] = outer
+		}
+		items = items[:0]
+		computed = true
+		for i, n := 0, 2+c.Intn(4); i < n; i++ {
+			inner := gen.ColRef{Name: "env." + gen.Pick(c.R, []string{"n1", "n2", "n3", "o1.p"})}
+			missing := gen.ColRef{Name: gen.Pick(c.R, []string{"n1", "n2", "n3", "s1", "o1.p"})}
+			op := gen.Pick(c.R, []string{"+", "-", "*"})
+			switch c.Intn(5) {
+			case 0:
+				if strings.Contains(missing.Name, ".") {
+					items = append(items, gen.SelectItem{E: missing, Alias: gen.AliasN(i)})
+				} else {
+					items = append(items, gen.SelectItem{E: missing})
+				}
+			case 1:
+				items = append(items, gen.SelectItem{E: inner, Alias: gen.AliasN(i)})
+			case 2:
+				items = append(items, gen.SelectItem{E: gen.Bin{Op: op, L: missing, R: gen.NumLit{V: gen.RandNum(c.R)}}, Alias: gen.AliasN(i)})
+			case 3:
+				items = append(items, gen.SelectItem{E: gen.Bin{Op: op, L: inner, R: missing}, Alias: gen.AliasN(i)})
+			default:
+				items = append(items, gen.SelectItem{E: gen.Bin{Op: op, L: inner, R: gen.NumLit{V: gen.RandNum(c.R)}}, Alias: gen.AliasN(i)})
+			}
+		}
+	}
 	var feats []string
 	ro := gen.RenderOpts{Quote: gen.Quoting(c.Intn(2)), StrStyle: c.Intn(2), Features: &feats, Qualifier: qualifier, BarePaths: force == "ref.path.bare" || c.Chance(0.3)}
 	// a share of the cases is spelled with double-quoted identifiers and run
@@ -143,6 +181,9 @@ func c02Proj(c *fw.Case) {
 	}
 	if qualifier == "t1" {
 		feats = append(feats, "naming.table-qualified")
+	}
+	if envelope {
+		feats = append(feats, "row.envelope")
 	}
 	if where != nil {
 		sql += " WHERE " + gen.RenderPred(where, ro)
